@@ -89,4 +89,15 @@ PROPS = {
         "not_modelled": "nullable columns (Optional stripping), float / text / date columns, join ON narrowing (filter_by_join_operator): oracle only",
         "assumptions": [],
     },
+    "C08": {
+        "model_targets": ["QV/Corr/Quote.vo"],
+        "oracle": "original and rendered SQL executed on in-process SQLite over generated databases: multiset of rows, order under ORDER BY, column names; generated query trees plus 32 construct templates",
+        "trusted": [
+            "SQLite 3.40 as the reference semantics; harness/src/sqlite.rs (shims for GREATEST/LEAST/MD5/RANDOM/VARIANCE/STDDEV, views mapping table names to paths)",
+            "correspondence of the quoting kernel: harness/src/c08.rs::quote_cases and QV/Corr/Quote.v against sqlparser Display and Tokenizer",
+            "modelled, not verified: sqlparser EscapeQuotedString / parse_quoted_ident",
+        ],
+        "not_modelled": "sql/relation.rs, sql/expr.rs, query_names.rs, expr/split.rs, relation/sql.rs: no model; decided by execution only",
+        "assumptions": ["generated queries avoid constructs on which SQLite and PostgreSQL differ (integer division, implicit casts)"],
+    },
 }
